@@ -5,8 +5,9 @@ package main
 // Input line:  (transform (seed n) (passes k) (opt k v)… (main x<hex>) (mod x<name> x<hex>)…)
 //   options: (optimize false)  do not run the optimizer before transforming (cmd/main.go does)
 //            (run false)       do not analyse / execute the variants
-//            (ast true)        also dump the analysed AST of the input (AST=) and of every
-//                              variant *as built by the transformer* (X<i>=), before printing
+//            (ast true)        also dump the analysed AST of the transformer's input (AST=: the entry
+//                              module after the optimizer) and of every variant *as built by the
+//                              transformer* (X<i>=), before printing
 //            (timeout ms)
 // Output line: fields separated by " | ":
 //   A=ACCEPT|REJECT…                                   the input program
@@ -68,20 +69,22 @@ func transformLine(line string) string {
 		add("VM0", runVM(analyzed, ro))
 		add("TREE0", runTree(analyzed, ro))
 	}
-	if o.ast {
-		add("AST", sxModules(analyzed).String())
-	}
 
 	// transform (the transformer shuffles the slices of its input in place: nothing of
 	// `analyzed` is used afterwards)
 	texts := []string{}
 	dumps := []string{}
+	astIn := ""
 	st := guarded(func() string {
 		tree := analyzed["main"]
 		if doOpt {
 			opt := optimizer.NewOptimizer()
 			out, _ := opt.Optimize(analyzed)
 			tree = out["main"]
+		}
+		if o.ast {
+			// the transformer's input (the entry module after the optimizer), dumped before it is shuffled
+			astIn = T("modules", sxProgram("main", tree)).String()
 		}
 		trans := fuzzer.NewTransformer(seed)
 		for i := 0; i < passes; i++ {
@@ -93,6 +96,9 @@ func transformLine(line string) string {
 		}
 		return "OK"
 	})
+	if astIn != "" {
+		add("AST", astIn)
+	}
 	add("N", fmt.Sprint(len(texts)))
 	if st != "OK" {
 		add("TRANSFORM", st)
